@@ -14,29 +14,19 @@ Definition enc_smembers (ms : list ((key * nat) * ty)) := map (fun m => (fst m, 
 Definition dec_smembers (fuel : nat) (ms : list ((key * nat) * ty)) := map (fun m => (fst m, decode_fuel fuel (snd m))) ms.
 
 (* ------------------------------------------------------------------ layouts *)
-Lemma layout_cons pos k off t ms size :
-  layout_ok pos (stag_layout (((k, off), t) :: ms)) size = true ->
-  exists w, fixed_width t = Some w /\ (pos <= off)%nat /\ layout_ok (off + w) (stag_layout ms) size = true.
+Lemma extents_cons k off t ms size :
+  extents_ok (stag_layout (((k, off), t) :: ms)) size = true ->
+  exists w, fixed_width t = Some w /\ (off + w <= size)%nat
+            /\ (forall m w', In m ms -> fixed_width (snd m) = Some w' ->
+                  (off + w <= snd (fst m) \/ snd (fst m) + w' <= off)%nat)
+            /\ extents_ok (stag_layout ms) size = true.
 Proof.
-  unfold stag_layout. cbn [map layout_ok fst snd]. destruct (fixed_width t) as [w|]; [|discriminate].
-  intros H. apply andb_prop in H as [H1 H2]. exists w. repeat split; [lia|exact H2].
-Qed.
-
-Lemma layout_bound pos ms size : layout_ok pos (stag_layout ms) size = true -> (pos <= size)%nat.
-Proof.
-  revert pos. induction ms as [|[[k off] t] ms IH]; intros pos H.
-  - cbn in H. lia.
-  - apply layout_cons in H as (w & _ & Hp & H). apply IH in H. lia.
-Qed.
-
-Lemma layout_members pos ms size m w :
-  layout_ok pos (stag_layout ms) size = true -> In m ms -> fixed_width (snd m) = Some w ->
-  (pos <= snd (fst m))%nat /\ (snd (fst m) + w <= size)%nat.
-Proof.
-  revert pos. induction ms as [|[[k off] t] ms IH]; intros pos H Hin Hw; [destruct Hin|].
-  apply layout_cons in H as (w' & Hw' & Hp & H). destruct Hin as [<-|Hin].
-  - cbn [fst snd] in *. rewrite Hw' in Hw. injection Hw as <-. apply layout_bound in H. lia.
-  - destruct (IH _ H Hin Hw). lia.
+  unfold stag_layout. cbn [map extents_ok fst snd]. destruct (fixed_width t) as [w|]; [|discriminate].
+  intros H. apply andb_prop in H as [H H3]. apply andb_prop in H as [H1 H2].
+  exists w. split; [reflexivity|]. split; [apply Nat.leb_le in H1; exact H1|]. split; [|exact H3].
+  intros m w' Hin Hw'. rewrite forallb_forall in H2.
+  specialize (H2 (snd (fst m), fixed_width (snd m)) ltac:(apply in_map_iff; exists m; split; [reflexivity|exact Hin])).
+  rewrite Hw' in H2. cbn [ext_disjoint] in H2. lia.
 Qed.
 
 (* ------------------------------------------------------------------ members after encoding *)
@@ -50,10 +40,10 @@ Definition outside_visible (priv : list text) (ms : list ((key * nat) * ty)) (i 
   forall m w, In m ms -> key_in (fst (fst m)) priv = false -> fixed_width (snd m) = Some w ->
               ~ (snd (fst m) <= i < snd (fst m) + w)%nat.
 
-Lemma stag_enc_members priv d ms : forall pos buf,
+Lemma stag_enc_members priv d ms : forall buf,
   Forall (fun m => MP (snd m)) ms ->
   forallb (fun m => wf_ty (snd m) && negb (greedy (snd m))) ms = true ->
-  layout_ok pos (stag_layout ms) (length buf) = true ->
+  extents_ok (stag_layout ms) (length buf) = true ->
   forallb (fun m => negb (key_in (fst (fst m)) priv) || always_decodes (snd m)) ms = true ->
   forallb (fun m => key_in (fst (fst m)) priv
                     || match dict_get d (fst (fst m)) with Ok x => in_dom (snd m) x | Err _ => false end) ms = true ->
@@ -62,19 +52,17 @@ Lemma stag_enc_members priv d ms : forall pos buf,
     /\ (forall i, outside_visible priv ms i -> nth_error buf1 i = nth_error buf i)
     /\ Forall (member_ok priv d buf1) ms.
 Proof.
-  induction ms as [|[[k off] t] ms IH]; intros pos buf Hmp Hwf Hlay Hpriv Hdom.
+  induction ms as [|[[k off] t] ms IH]; intros buf Hmp Hwf Hlay Hpriv Hdom.
   - exists buf. repeat split; constructor.
   - inversion Hmp as [|? ? [Hrt [Hfw Had]] Hmp']; subst. cbn [snd] in Hrt, Hfw, Had.
     cbn [forallb fst snd] in Hwf, Hpriv, Hdom.
     apply andb_prop in Hwf as [Hwt Hwf]. apply andb_prop in Hwt as [Hwt Hgt]. apply negb_true_iff in Hgt.
     apply andb_prop in Hpriv as [Hpt Hpriv]. apply andb_prop in Hdom as [Hdt Hdom].
-    pose proof Hlay as Hlay0.
-    apply layout_cons in Hlay as (w & Hw & Hpos & Hlay).
-    assert (Hend : (off + w <= length buf)%nat) by (apply layout_bound in Hlay; exact Hlay).
+    apply extents_cons in Hlay as (w & Hw & Hend & Hdis & Hlay).
     cbn [enc_smembers map stag_encode_members fst snd]. fold (enc_smembers ms).
     destruct (key_in k priv) eqn:Ek.
     + cbn [negb orb] in Hpt.
-      destruct (IH (off + w)%nat buf Hmp' Hwf Hlay Hpriv Hdom) as (buf1 & He & Hl & Hout & Hall).
+      destruct (IH buf Hmp' Hwf Hlay Hpriv Hdom) as (buf1 & He & Hl & Hout & Hall).
       exists buf1. split; [exact He|]. split; [exact Hl|]. split.
       * intros i Hi. apply Hout. intros m w' Hin. apply Hi. now right.
       * constructor; [|exact Hall]. exists w. cbn [fst snd]. rewrite Ek. repeat split; [exact Hw|lia|exact Hpt].
@@ -83,7 +71,7 @@ Proof.
       pose proof (Hfw w x e Hw Hwt Hdt (proj1 Hgood)) as Hle.
       cbn [bind]. rewrite (as_member_dom _ _ _ Hdt), (proj1 Hgood). cbn [bind].
       assert (Hsp : (off + length e <= length buf)%nat) by lia.
-      destruct (IH (off + w)%nat (splice buf off e) Hmp' Hwf) as (buf1 & He & Hl & Hout & Hall); try assumption.
+      destruct (IH (splice buf off e) Hmp' Hwf) as (buf1 & He & Hl & Hout & Hall); try assumption.
       { now rewrite splice_length. }
       rewrite splice_length in Hl by exact Hsp.
       exists buf1. split; [exact He|]. split; [exact Hl|]. split.
@@ -95,7 +83,7 @@ Proof.
         exists x, e. repeat split; try assumption; try (apply Hgood).
         intros j Hj. rewrite Hout.
         -- apply splice_nth_inside; lia.
-        -- intros m w' Hin Hk Hw' Hr. destruct (layout_members _ _ _ m w' Hlay Hin Hw'). lia.
+        -- intros m w' Hin Hk Hw' Hr. destruct (Hdis m w' Hin Hw'); lia.
 Qed.
 
 (* ------------------------------------------------------------------ bit members *)
@@ -208,41 +196,32 @@ Qed.
 Definition set_all (acc : list (key * val)) (kvs : list (key * val)) : list (key * val) :=
   fold_left (fun a kv => dict_set a (fst kv) (snd kv)) kvs acc.
 
-Lemma stag_dec_members priv d buf fuel ms : forall pos acc,
-  Forall (fun m => MP (snd m)) ms -> Forall (member_ok priv d buf) ms ->
-  layout_ok pos (stag_layout ms) (length buf) = true -> (length buf < fuel)%nat ->
-  exists vals sub,
-    stag_decode_members (dec_smembers fuel ms) (length buf) acc (skipn pos buf)
-    = DOk (VDict (set_all acc (combine (map (fun m => fst (fst m)) ms) vals))) sub
+Lemma stag_dec_members priv d buf fuel ms : forall acc,
+  Forall (fun m => MP (snd m)) ms -> Forall (member_ok priv d buf) ms -> (length buf < fuel)%nat ->
+  exists vals,
+    stag_decode_members (dec_smembers fuel ms) acc buf
+    = DOk (VDict (set_all acc (combine (map (fun m => fst (fst m)) ms) vals))) []
     /\ Forall2 (fun m v => key_in (fst (fst m)) priv = false ->
                            exists x, dict_get d (fst (fst m)) = Ok x /\ v = norm (snd m) x) ms vals.
 Proof.
-  induction ms as [|[[k off] t] ms IH]; intros pos acc Hmp Hok Hlay Hf.
-  - exists [], (skipn pos buf). split; [reflexivity|constructor].
+  induction ms as [|[[k off] t] ms IH]; intros acc Hmp Hok Hf.
+  - exists []. split; [reflexivity|constructor].
   - inversion Hmp as [|? ? [Hrt [Hfw Had]] Hmp']; subst. inversion Hok as [|? ? Hm Hok']; subst.
     cbn [snd] in Hrt, Hfw, Had.
-    pose proof (layout_bound _ _ _ Hlay) as Hpb.
-    apply layout_cons in Hlay as (w & Hw & Hpos & Hlay).
-    destruct Hm as (w' & Hw' & Hend & Hm). cbn [fst snd] in Hw', Hend, Hm. rewrite Hw in Hw'. injection Hw' as <-.
+    destruct Hm as (w & Hw & Hend & Hm). cbn [fst snd] in Hw, Hend, Hm.
     cbn [dec_smembers map stag_decode_members fst snd]. fold (dec_smembers fuel ms).
-    rewrite skipn_length. replace (length buf - (length buf - pos))%nat with pos by lia.
-    assert (Hsub : (if (pos <? off)%nat then skipn (off - pos) (skipn pos buf) else skipn pos buf) = skipn off buf).
-    { destruct (pos <? off)%nat eqn:E.
-      - rewrite skipn_skipn'. f_equal. apply Nat.ltb_lt in E. lia.
-      - apply Nat.ltb_ge in E. f_equal. lia. }
-    rewrite Hsub.
     destruct (key_in k priv) eqn:Ek.
     + rewrite <- (firstn_skipn w (skipn off buf)), skipn_skipn'.
       destruct (Had w (firstn w (skipn off buf)) (skipn (off + w) buf) fuel Hm Hw) as (v & Hv & _).
       { rewrite firstn_length, skipn_length. lia. }
-      replace (off + w)%nat with (off + w)%nat in Hv by lia. rewrite Hv. cbn [dbind].
-      destruct (IH (off + w)%nat (dict_set acc k v) Hmp' Hok' Hlay Hf) as (vals & sub & Hd & Hall).
-      exists (v :: vals), sub. split; [exact Hd|]. constructor; [intros H; cbn [fst] in H; congruence|exact Hall].
+      rewrite Hv. cbn [dbind].
+      destruct (IH (dict_set acc k v) Hmp' Hok' Hf) as (vals & Hd & Hall).
+      exists (v :: vals). split; [exact Hd|]. constructor; [intros H; cbn [fst] in H; congruence|exact Hall].
     + destruct Hm as (x & e & Hx & Hgood & Hle & Hnth).
       rewrite (skipn_slice_ext buf e off) by (rewrite Hle; assumption).
-      rewrite (proj2 Hgood) by lia. cbn [dbind]. rewrite Hle.
-      destruct (IH (off + w)%nat (dict_set acc k (norm t x)) Hmp' Hok' Hlay Hf) as (vals & sub & Hd & Hall).
-      exists (norm t x :: vals), sub. split; [exact Hd|]. constructor; [|exact Hall].
+      rewrite (proj2 Hgood) by lia. cbn [dbind].
+      destruct (IH (dict_set acc k (norm t x)) Hmp' Hok' Hf) as (vals & Hd & Hall).
+      exists (norm t x :: vals). split; [exact Hd|]. constructor; [|exact Hall].
       intros _. exists x. now split.
 Qed.
 
@@ -371,7 +350,7 @@ Proof.
   apply andb_prop in Hwf as [Hwf Hkeys]. apply andb_prop in Hwf as [Hw1 Hlay].
   cbn [in_dom] in Hd. apply andb_prop in Hd as [Hdm Hdb].
   (* encode: members *)
-  destruct (stag_enc_members priv d ms 0%nat (zeros size) Hmp Hw1) as (buf1 & He1 & Hl1 & Hout & Hall1); try assumption.
+  destruct (stag_enc_members priv d ms (zeros size) Hmp Hw1) as (buf1 & He1 & Hl1 & Hout & Hall1); try assumption.
   { now rewrite zeros_length. }
   rewrite zeros_length in Hl1.
   (* encode: bits *)
@@ -400,10 +379,9 @@ Proof.
     assert (Hs : size = length buf2) by lia.
     replace (firstn size (buf2 ++ rest)) with buf2 by (rewrite Hs; symmetry; apply firstn_app_exact).
     replace (skipn size (buf2 ++ rest)) with rest by (rewrite Hs; symmetry; apply skipn_app_exact).
-    destruct (stag_dec_members priv d buf2 fuel ms 0%nat [] Hmp Hall2) as (vals & sub & Hdm2 & Hvals).
-    { now rewrite <- Hs. }
-    { exact Hf. }
-    cbn [skipn] in Hdm2. rewrite Hdm2.
+    replace ((length buf2 <? size)%nat) with false by (symmetry; apply Nat.ltb_ge; lia). rewrite andb_false_r.
+    destruct (stag_dec_members priv d buf2 fuel ms [] Hmp Hall2 Hf) as (vals & Hdm2 & Hvals).
+    rewrite Hdm2.
     rewrite (stag_dec_bits d bits buf2 _ Hallb). fold (bit_entries d bits).
     rewrite <- set_all_app.
     pose proof (Forall2_len' _ _ _ Hvals) as Hlen.
